@@ -6,6 +6,7 @@ CONSTANTS
   MaxIter = 200
   ScanMax = 400
   ScanL = 40
+  BigN = {6, 7}
   ArangeEdges = FALSE
   Emit = TRUE
 INVARIANT ExactlyL
